@@ -76,6 +76,16 @@ def build(kind):
             env["RUSTFLAGS"] = "-Zsanitizer=address -Cforce-frame-pointers=yes"
             _cargo(["build", "--offline", "--release", "--bins", "--features", "asan", "--target", "x86_64-unknown-linux-gnu"], HARNESS, env, kind)
             return os.path.join(TARGET, "asan", "x86_64-unknown-linux-gnu", "release", "nsworker")
+        if kind == "fuzz":
+            # cargo-fuzz target for C07 stage F (libFuzzer + ASan); `cargo fuzz` rejects --offline, the env var does it
+            env["CARGO_TARGET_DIR"] = os.path.join(TARGET, "fuzz")
+            t0 = time.time()
+            p = subprocess.run(["cargo", "+nightly", "fuzz", "build", "--fuzz-dir", ".", "front"], cwd=os.path.join(HARNESS, "fuzz"), env=env,
+                               stdout=subprocess.PIPE, stderr=subprocess.STDOUT, text=True)
+            if p.returncode != 0:
+                raise BuildError("build fuzz failed:\n" + "\n".join(p.stdout.splitlines()[-40:]))
+            log(f"[build] fuzz: {time.time() - t0:.1f}s")
+            return os.path.join(TARGET, "fuzz", "x86_64-unknown-linux-gnu", "release", "front")
         if kind == "cli-dbg":
             env["CARGO_TARGET_DIR"] = os.path.join(TARGET, "cli")
             _cargo(["build", "--offline", "--bin", "naija"], REPO, env, kind)
